@@ -202,6 +202,11 @@ def _problem(case):
         masks = [rs.rand(nd_all) < 0.6 for _ in range(r)]
         train = np.array([(0.05 + rs.rand(nd_all)) * np.where(m, 1.0, 0.08) for m in masks])
         basis = np.array([train[i % r] / np.sqrt(np.mean(train[i % r] ** 2)) + 0.35 * rs.rand(nd_all) for i in range(k)])
+    elif kind == 'negaligned':
+        # every basis RDM is NEGATIVELY aligned with the training data: the best non-negative weights are all zero
+        w = 0.2 + rs.rand(k)
+        base = w @ (basis - np.mean(basis, axis=1, keepdims=True))
+        train = np.array([-base + 0.05 * np.std(base) * rs.randn(nd_all) for _ in range(r)])
     elif kind == 'posmix':
         w = 0.2 + rs.rand(k)
         base = w @ basis
@@ -322,6 +327,9 @@ def _weighted(case, fit_name, nonneg):
         comps.append((f'basis RDM {i} alone', e))
         if not nonneg:
             comps.append((f'minus basis RDM {i} alone', -e))
+    if nonneg and not zero and s_fit < -TOL:
+        return (f'{fit_name}({case["method"]}) weights {_fmt(theta)} reach mean similarity {s_fit:.9f} < 0, but the admissible '
+                f'all-zero weights have similarity 0 by the library\'s convention (no non-negative weights score above 0 here)')
     opt_theta = crit.optimum(X, nonneg)
     if np.any(opt_theta != 0):
         comps.append(('independently computed optimum', opt_theta))
@@ -606,6 +614,17 @@ def orc_predict(case):
                 # same parameters given as a list
                 if not close(np.asarray(m.predict(list(th)), dtype=float), pv, 1e-12):
                     return f'{mname}: predict differs between list and array {tdesc}'
+    # predictions held by the caller stay what they were when the model predicts again with other parameters
+    held = []
+    for th in thetas:
+        if th is None:
+            continue
+        args = (th if isinstance(th, int) else np.array(th),)
+        held.append((th, model.predict_rdm(*args), np.asarray(model.predict(*args), dtype=float).copy()))
+    for th, pr, pv in held:
+        if not close(pr.dissimilarities[0], pv, 1e-12):
+            return (f'the RDMs object returned by predict_rdm(theta={_fmt(th) if not isinstance(th, int) else th}) changed when the '
+                    f'model predicted again with other parameters: now {_fmt(pr.dissimilarities[0][:3])}, was {_fmt(pv[:3])}')
     if cls_name in ('ModelWeighted', 'ModelInterpolate') and tk != 'default':
         t1, t2 = (rs.rand(k), rs.rand(k)) if tk in ('nonneg', 'convex') else (rs.randn(k), rs.randn(k))
         a, b = (0.25, 1.5) if tk in ('nonneg', 'convex') else (-0.75, 2.0)
@@ -768,6 +787,13 @@ def tier_c(run, thorough):
             if fit_name == 'fit_optimize':
                 ic += ',' + _optimum_sign_class(case)
             bd.check(orc, case, ic, function=fit_name)
+        if fit_name in ('fit_regress_nn', 'fit_optimize_positive'):
+            # training data negatively aligned with every basis RDM: the all-zero weights (similarity 0) are the optimum
+            for seed in range(6 if thorough else 3):
+                for method in ('cosine', 'corr'):
+                    case = dict(seed=9500 + seed, k=(2, 3)[seed % 2], n_all=(5, 6)[seed % 2], pidx=None, desc='index', kind='negaligned',
+                                method=method, n_train=(1, 3)[seed % 2], sigma='none', via='direct')
+                    bd.check(orc, case, 'sigma_k-none,negatively-aligned-training-data', function=fit_name)
         if fit_name == 'fit_optimize':
             # the default fitter of ModelWeighted, called through Model.fit
             for seed in range(2 if thorough else 1):
